@@ -69,9 +69,9 @@ def dropPrefix? : Str → Str → Option Str
   | p :: ps, c :: cs => if p = c then dropPrefix? ps cs else none
 
 /-- `int(<ascii digits>)`: CPython refuses more than `sys.get_int_max_str_digits()` digits with
-`ValueError` (leading zeros count). -/
+`ValueError` (leading zeros count); `int('')` is a `ValueError` too. -/
 def parseInt (ds : Str) : Except ExcClass Nat :=
-  if intMaxStrDigits ≠ 0 ∧ intMaxStrDigits < ds.length then .error .valueError
+  if ds = [] ∨ (intMaxStrDigits ≠ 0 ∧ intMaxStrDigits < ds.length) then .error .valueError
   else .ok (Nat.ofDigitChars 10 ds 0)
 
 def litArray : Str := ['A', 'R', 'R', 'A', 'Y']
@@ -79,40 +79,94 @@ def litDecimal : Str := ['D', 'E', 'C', 'I', 'M', 'A', 'L']
 def litVarchar : Str := ['V', 'A', 'R', 'C', 'H', 'A', 'R']
 def litBlob : Str := ['B', 'L', 'O', 'B']
 
-/-! ## `_parse_type` (types.py:29-66): four `re.match` prefix matchers, tried in order -/
+/-! ## what Python's Unicode tables decide
 
-/-- `re.match(r"ARRAY<([\w\s\[\]\(\)]+)>", s)` → group 1.  The class does not contain `>`, so the
-greedy run is the only candidate. -/
-def matchArray (s : Str) : Option Str :=
-  match dropPrefix? (litArray ++ ['<']) s with
-  | none => none
-  | some r =>
-    match r.takeWhile isElemChar, r.dropWhile isElemChar with
-    | _ :: _, '>' :: _ => some (r.takeWhile isElemChar)
-    | _, _ => none
+`str.upper`, `\d`, `\s`, `\w` and `int()` are Unicode-aware (`'ınteger'.upper() == 'INTEGER'`,
+`'ß'.upper() == 'SS'`, `\d` matches `'١'`, `int('١٠') == 10`).  `Chars` leaves what the tables decide abstract;
+everything below is defined over an arbitrary `U : Chars`.  `Chars.ascii` is the ASCII instance: `parseType`,
+`fromName` are the functions at `Chars.ascii`. -/
 
-/-- `re.match(r"DECIMAL\((\d+),\s*(\d+)\)", s)` → groups 1, 2.  Digits, `,`, whitespace and `)` are
-pairwise disjoint classes, so each greedy run is the only candidate. -/
-def matchDecimal (s : Str) : Option (Str × Str) :=
-  match dropPrefix? (litDecimal ++ ['(']) s with
-  | none => none
-  | some r1 =>
-    match r1.takeWhile isD, r1.dropWhile isD with
-    | _ :: _, ',' :: r2 =>
-      let r3 := r2.dropWhile isS
-      match r3.takeWhile isD, r3.dropWhile isD with
-      | _ :: _, ')' :: _ => some (r1.takeWhile isD, r3.takeWhile isD)
-      | _, _ => none
-    | _, _ => none
+structure Chars where
+  /-- `str.upper()` (may change the length) -/
+  upper : Str → Str
+  /-- `\d` -/
+  isD : Char → Bool
+  /-- `\s` -/
+  isS : Char → Bool
+  /-- `\w` -/
+  isW : Char → Bool
+  /-- `int(t)` for a text matched by `\d+` -/
+  toInt : Str → Except ExcClass Nat
 
-/-- `re.match(r"<PRE>\[(\d+)\]", s)` → group 1 (VARCHAR and BLOB). -/
-def matchBracket (pre : Str) (s : Str) : Option Str :=
-  match dropPrefix? (pre ++ ['[']) s with
-  | none => none
-  | some r =>
-    match r.takeWhile isD, r.dropWhile isD with
-    | _ :: _, ']' :: _ => some (r.takeWhile isD)
-    | _, _ => none
+def Chars.ascii : Chars :=
+  { upper := up, isD := TypeName.isD, isS := TypeName.isS, isW := TypeName.isW, toInt := parseInt }
+
+/-! ## the patterns of `_parse_type`, interpreted from their sources
+
+`Gen.TypeName.rxArray … rxBlob` are the four patterns parsed (with Python's own `re._parser`) into items: a
+literal character, or a greedy unbounded repeat of a class.  `matchItems` matches such a pattern at the start
+of a text, greedily and without backtracking — which is what `re` computes whenever no repeat can take a
+character the next item needs (`noBacktrack`, checked by `decide` in `Props/C06.lean`). -/
+
+def atomHolds (U : Chars) : Atom → Char → Bool
+  | .digit, c => U.isD c
+  | .space, c => U.isS c
+  | .word, c => U.isW c
+  | .ch x, c => c = x
+
+def clsHolds (U : Chars) (cls : List Atom) (c : Char) : Bool := cls.any (fun a => atomHolds U a c)
+
+/-- the captured groups, in order, when the pattern matches a prefix of the text. -/
+def matchItems (U : Chars) : List RItem → Str → Option (List Str)
+  | [], _ => some []
+  | .lit c :: is, s =>
+    match s with
+    | [] => none
+    | x :: xs => if c = x then matchItems U is xs else none
+  | .run cls min cap :: is, s =>
+    if (s.takeWhile (clsHolds U cls)).length < min then none
+    else (matchItems U is (s.dropWhile (clsHolds U cls))).map
+      (fun gs => if cap then s.takeWhile (clsHolds U cls) :: gs else gs)
+
+def group1 : List Str → Option Str
+  | [g] => some g
+  | _ => none
+
+def group2 : List Str → Option (Str × Str)
+  | [g, h] => some (g, h)
+  | _ => none
+
+/-- can an ASCII literal character be taken by a class (ASCII reading of `\d \s \w`)? -/
+def atomTakes : Atom → Char → Bool
+  | .digit, c => isD c
+  | .space, c => isS c
+  | .word, c => isW c
+  | .ch x, c => c = x
+
+def atomsOverlap : Atom → Atom → Bool
+  | .ch x, a => atomTakes a x
+  | a, .ch x => atomTakes a x
+  | .digit, .space => false
+  | .space, .digit => false
+  | .space, .word => false
+  | .word, .space => false
+  | _, _ => true
+
+/-- may a repeat of `cls` take a character that one of the following items needs?  Items that may match
+nothing (`min = 0`) are looked through. -/
+def clashes (cls : List Atom) : List RItem → Bool
+  | [] => false
+  | .lit c :: _ => cls.any (fun a => atomTakes a c)
+  | .run cls2 min _ :: rest =>
+    cls.any (fun a => cls2.any (fun b => atomsOverlap a b)) || (min == 0 && clashes cls rest)
+
+/-- greedy matching never has to give a character back. -/
+def noBacktrack : List RItem → Bool
+  | [] => true
+  | .lit _ :: rest => noBacktrack rest
+  | .run cls _ _ :: rest => !clashes cls rest && noBacktrack rest
+
+/-! ## `_parse_type` (types.py:29-66) -/
 
 inductive Parsed where
   | array (body : Str)
@@ -122,25 +176,43 @@ inductive Parsed where
   | bare (s : Str)
   deriving Repr, DecidableEq
 
-/-- `_parse_type(type_str)`; the `int(...)` conversions happen here and can raise. -/
-def parseType (s : Str) : Except ExcClass Parsed :=
-  match matchArray s with
-  | some body => .ok (.array body)
-  | none =>
-  match matchDecimal s with
-  | some (p, q) =>
-    match parseInt p with
-    | .error e => .error e
-    | .ok p => match parseInt q with
+/-- `Pattern.search`: the leftmost start position at which the pattern matches. -/
+def searchFrom {α : Type} (m : Str → Option α) : Str → Option α
+  | [] => m []
+  | c :: cs =>
+    match m (c :: cs) with
+    | some r => some r
+    | none => searchFrom m cs
+
+/-- a pattern applied the way the source applies it (`Gen.TypeName.anchor*`): `re.match` tries the start
+of the text only, `search` every start position from the left. -/
+def anchored {α : Type} (a : Anchor) (m : Str → Option α) (s : Str) : Option α :=
+  match a with
+  | .atStart => m s
+  | .anywhere => searchFrom m s
+
+/-- one `x_match = re.match(…); if x_match: return …` block of `_parse_type`; the `int(...)`
+conversions happen here and can raise. -/
+def tryKindU (U : Chars) (s : Str) : PKind → Option (Except ExcClass Parsed)
+  | .array => (anchored anchorArray (fun t => (matchItems U rxArray t).bind group1) s).map
+      (fun body => .ok (.array body))
+  | .decimal => (anchored anchorDecimal (fun t => (matchItems U rxDecimal t).bind group2) s).map (fun pq =>
+      match U.toInt pq.1 with
       | .error e => .error e
-      | .ok q => .ok (.decimal p q)
-  | none =>
-  match matchBracket litVarchar s with
-  | some n => (parseInt n).map .varchar
-  | none =>
-  match matchBracket litBlob s with
-  | some n => (parseInt n).map .blob
-  | none => .ok (.bare (up s))
+      | .ok p => match U.toInt pq.2 with
+        | .error e => .error e
+        | .ok q => .ok (.decimal p q))
+  | .varchar => (anchored anchorVarchar (fun t => (matchItems U rxVarchar t).bind group1) s).map
+      (fun n => (U.toInt n).map .varchar)
+  | .blob => (anchored anchorBlob (fun t => (matchItems U rxBlob t).bind group1) s).map
+      (fun n => (U.toInt n).map .blob)
+
+/-- `_parse_type(type_str)`: the four blocks in the order the source has them (`Gen.TypeName.parseOrder`),
+then the fall-through `return type_str.upper()` (`upperBareReturn`). -/
+def parseTypeU (U : Chars) (s : Str) : Except ExcClass Parsed :=
+  match parseOrder.findSome? (tryKindU U s) with
+  | some r => r
+  | none => .ok (.bare (if upperBareReturn then U.upper s else s))
 
 /-! ## `OrsoTypes.from_name` (types.py:147-218) -/
 
@@ -196,32 +268,169 @@ def decimalResolve (p s : Nat) : Res :=
   | some g => .error g.cls
   | none => .ok { ty := .member litDecimal, precision := some p, scale := some s }
 
-/-- `OrsoTypes.from_name(name)` for a text `name`. -/
-def fromName (name : Str) : Res :=
-  match parseType (up name) with
+def setNat (d : Desc) : Slot → Nat → Desc
+  | .length, n => { d with length := some n }
+  | .precision, n => { d with precision := some n }
+  | .scale, n => { d with scale := some n }
+  | .elem, _ => d
+
+/-- types.py:209-216: `elif parsed_types[0] == HEAD: _type = OrsoTypes.M; _<slot> = parsed_types[1][0]`
+(`Gen.TypeName.lengthBranches`), else the final `raise ValueError`. -/
+def lengthResolve (head : Str) (n : Nat) : Res :=
+  match lengthBranches.find? (fun b => b.1 == head) with
+  | some (_, m, slot) => .ok (setNat { ty := .member m } slot n)
+  | none => .error .valueError
+
+/-- `_precision, _scale = parsed_types[1]` (types.py:200; `Gen.TypeName.decimalTargets`): the values the
+two locals get when `_parse_type` returned `(p, s)`. -/
+def decimalBind (p s : Nat) : Nat × Nat :=
+  if decimalTargets = [.scale, .precision] then (s, p) else (p, s)
+
+/-- `OrsoTypes.from_name(name)` for an arbitrary Python `str`: `str(name).upper()` if the source has the call
+(`upperInFromName`), `_parse_type`, then the dispatch on what came back. -/
+def fromNameU (U : Chars) (name : Str) : Res :=
+  match parseTypeU U (if upperInFromName then U.upper name else name) with
   | .error e => .error e
   | .ok (.bare b) => bareResolve b
   | .ok (.array body) => arrayResolve body
-  | .ok (.decimal p s) => decimalResolve p s
-  | .ok (.varchar n) => .ok { ty := .member litVarchar, length := some n }
-  | .ok (.blob n) => .ok { ty := .member litBlob, length := some n }
+  | .ok (.decimal p s) => decimalResolve (decimalBind p s).1 (decimalBind p s).2
+  | .ok (.varchar n) => lengthResolve litVarchar n
+  | .ok (.blob n) => lengthResolve litBlob n
+
+/-- `_parse_type` on ASCII text. -/
+def parseType (s : Str) : Except ExcClass Parsed := parseTypeU Chars.ascii s
+
+/-- `OrsoTypes.from_name(name)` for an ASCII text `name`. -/
+def fromName (name : Str) : Res := fromNameU Chars.ascii name
+
+/-! ## reference matchers
+
+The four patterns written out by hand as prefix matchers (round 1).  The lemmas are proved about these;
+`Lemmas/TypeName.lean` shows that the interpreted patterns (`matchItems U rx…`) compute exactly them. -/
+
+/-- `re.match(r"ARRAY<([\w\s\[\]\(\)]+)>", s)` → group 1.  The class does not contain `>`, so the
+greedy run is the only candidate. -/
+def matchArray (s : Str) : Option Str :=
+  match dropPrefix? (litArray ++ ['<']) s with
+  | none => none
+  | some r =>
+    match r.takeWhile isElemChar, r.dropWhile isElemChar with
+    | _ :: _, '>' :: _ => some (r.takeWhile isElemChar)
+    | _, _ => none
+
+/-- `re.match(r"DECIMAL\((\d+),\s*(\d+)\)", s)` → groups 1, 2.  Digits, `,`, whitespace and `)` are
+pairwise disjoint classes, so each greedy run is the only candidate. -/
+def matchDecimal (s : Str) : Option (Str × Str) :=
+  match dropPrefix? (litDecimal ++ ['(']) s with
+  | none => none
+  | some r1 =>
+    match r1.takeWhile isD, r1.dropWhile isD with
+    | _ :: _, ',' :: r2 =>
+      let r3 := r2.dropWhile isS
+      match r3.takeWhile isD, r3.dropWhile isD with
+      | _ :: _, ')' :: _ => some (r1.takeWhile isD, r3.takeWhile isD)
+      | _, _ => none
+    | _, _ => none
+
+/-- `re.match(r"<PRE>\[(\d+)\]", s)` → group 1 (VARCHAR and BLOB). -/
+def matchBracket (pre : Str) (s : Str) : Option Str :=
+  match dropPrefix? (pre ++ ['[']) s with
+  | none => none
+  | some r =>
+    match r.takeWhile isD, r.dropWhile isD with
+    | _ :: _, ']' :: _ => some (r.takeWhile isD)
+    | _, _ => none
+
+def isElemCharU (U : Chars) (c : Char) : Bool :=
+  U.isW c || U.isS c || c = '[' || c = ']' || c = '(' || c = ')'
+
+def matchArrayU (U : Chars) (s : Str) : Option Str :=
+  match dropPrefix? (litArray ++ ['<']) s with
+  | none => none
+  | some r =>
+    match r.takeWhile (isElemCharU U), r.dropWhile (isElemCharU U) with
+    | _ :: _, '>' :: _ => some (r.takeWhile (isElemCharU U))
+    | _, _ => none
+
+def matchDecimalU (U : Chars) (s : Str) : Option (Str × Str) :=
+  match dropPrefix? (litDecimal ++ ['(']) s with
+  | none => none
+  | some r1 =>
+    match r1.takeWhile U.isD, r1.dropWhile U.isD with
+    | _ :: _, ',' :: r2 =>
+      let r3 := r2.dropWhile U.isS
+      match r3.takeWhile U.isD, r3.dropWhile U.isD with
+      | _ :: _, ')' :: _ => some (r1.takeWhile U.isD, r3.takeWhile U.isD)
+      | _, _ => none
+    | _, _ => none
+
+def matchBracketU (U : Chars) (pre : Str) (s : Str) : Option Str :=
+  match dropPrefix? (pre ++ ['[']) s with
+  | none => none
+  | some r =>
+    match r.takeWhile U.isD, r.dropWhile U.isD with
+    | _ :: _, ']' :: _ => some (r.takeWhile U.isD)
+    | _, _ => none
 
 /-! ## `FlatColumn(name=…, type=<name>)` (schema.py:180-210) -/
 
-def declare (name : Str) : Res :=
+/-- the keyword arguments `element_type=`, `precision=`, `scale=`, `length=` of `FlatColumn(...)`
+(`none` = not given / `None`; the element type is an `OrsoTypes` member, by name). -/
+structure Explicit where
+  elem : Option Str := none
+  precision : Option Nat := none
+  scale : Option Nat := none
+  length : Option Nat := none
+  deriving Repr, DecidableEq
+
+/-- is an attribute "missing" for the test the source uses: `x is None`, or the truthiness of `x`
+(`not x`, `x or …`), for which a legitimate `0` is missing too. -/
+def missing : NoneTest → Option Nat → Bool
+  | .isNone, x => x.isNone
+  | .falsy, x => x.isNone || x == some 0
+
+def natSlot (d : Desc) : Slot → Option Nat
+  | .length => d.length
+  | .precision => d.precision
+  | .scale => d.scale
+  | .elem => none
+
+/-- one `if self.A <is missing>: self.A = _B` of schema.py:188-195 (`Gen.TypeName.mergeRules`).  An
+`OrsoTypes` member is never falsy, so both tests mean "is None" for the element type. -/
+def applyRule (parsed : Desc) (c : Desc) : Slot × NoneTest × Slot → Desc
+  | (.elem, _, .elem) => if c.elem.isNone then { c with elem := parsed.elem } else c
+  | (.precision, t, src) => if missing t c.precision then { c with precision := natSlot parsed src } else c
+  | (.scale, t, src) => if missing t c.scale then { c with scale := natSlot parsed src } else c
+  | (.length, t, src) => if missing t c.length then { c with length := natSlot parsed src } else c
+  | _ => c
+
+/-- schema.py:205-210, "validate decimal properties": the two DECIMAL defaults
+(`decimalPrecisionTest`, `decimalScaleTest`, `decimalDefaultPrecision`, `scaleNum/scaleDen`). -/
+def decimalDefaults (c : Desc) : Desc :=
+  if c.ty = .member litDecimal then
+    let p := if missing decimalPrecisionTest c.precision then some decimalDefaultPrecision else c.precision
+    let s := if missing decimalScaleTest c.scale then some (scaleNum * p.getD 0 / scaleDen) else c.scale
+    { c with precision := p, scale := s }
+  else c
+
+/-- `FlatColumn(name=…, type=<name>, element_type=…, precision=…, scale=…, length=…)`. -/
+def declareWith (name : Str) (x : Explicit) : Res :=
   match fromName name with
   | .error e => .error e
   | .ok d =>
-    -- :185 the parsed parameters are copied only when the type is an `OrsoTypes` member
-    let d : Desc := match d.ty with
-      | .zero => { ty := .zero }
-      | .member _ => d
-    -- :205-210 DECIMAL defaults
-    if d.ty = .member litDecimal then
-      let p := d.precision.getD ctxPrec
-      let s := d.scale.getD (scaleNum * p / scaleDen)
-      .ok { d with precision := some p, scale := some s }
-    else .ok d
+    let c0 : Desc := { ty := d.ty, length := x.length, precision := x.precision, scale := x.scale, elem := x.elem }
+    -- :187 the parsed parameters are merged in only when the type is an `OrsoTypes` member
+    let c1 : Desc := match d.ty with
+      | .zero => c0
+      | .member _ => mergeRules.foldl (applyRule d) c0
+    .ok (decimalDefaults c1)
+
+/-- `FlatColumn(name=…, type=<name>)`. -/
+def declare (name : Str) : Res := declareWith name {}
+
+/-- `FlatColumn(name=…, type=OrsoTypes.<m>, …)`: `from_name` is not consulted. -/
+def declareEnum (m : Str) (x : Explicit) : Desc :=
+  decimalDefaults { ty := .member m, length := x.length, precision := x.precision, scale := x.scale, elem := x.elem }
 
 /-! ## `DataFrame.description` type code (dataframe.py:342-394) -/
 
@@ -235,7 +444,56 @@ def fmtOpt : Option Nat → Str
   | none => ['N', 'o', 'n', 'e']
   | some n => digits n
 
-/-- the type code reported for a column; `none` when `description` raises (the int `0` has no `.value`). -/
+/-- does the test of an arm hold for a column whose `type.value` is `v`? -/
+def armHolds (v : Str) (c : Desc) : CodeCond → Bool
+  | .typeNotNone => true
+  | .valueIs k => v = k
+  | .valueIsAndElem k => v = k && c.elem.isSome
+  | .otherwise => true
+
+/-- the type code an arm assigns; `none` when evaluating it raises (`None.value`). -/
+def fmtCode (v : Str) (c : Desc) : CodeFmt → Option Str
+  | .plain => some v
+  | .decimal pre mid post => some (pre ++ fmtOpt c.precision ++ mid ++ fmtOpt c.scale ++ post)
+  | .array pre post =>
+    match c.elem with
+    | some e => some (pre ++ valueOf e ++ post)
+    | none => none
+
+/-- `data_type` and whether `data_precision` / `data_scale` were filled in. -/
+structure CodeState where
+  code : Option Str := none
+  params : Bool := false
+  deriving Repr, DecidableEq
+
+/-- one top-level `if … elif … else`: the first arm whose test holds runs. -/
+def runGroup (v : Str) (c : Desc) (st : CodeState) (g : List CodeArm) : Option CodeState :=
+  match g.find? (fun a => armHolds v c a.cond) with
+  | none => some st
+  | some a => (fmtCode v c a.fmt).map (fun code => { code := some code, params := st.params || a.setsParams })
+
+def runGroups (v : Str) (c : Desc) : CodeState → List (List CodeArm) → Option CodeState
+  | st, [] => some st
+  | st, g :: gs =>
+    match runGroup v c st g with
+    | none => none
+    | some st' => runGroups v c st' gs
+
+/-- the type-code statements of `description` (`Gen.TypeName.descProgram`) run on one column; `none` when
+they raise (the int `0` has no `.value`). -/
+def codeState (c : Desc) : Option CodeState :=
+  match c.ty with
+  | .zero => none
+  | .member m => runGroups (valueOf m) c {} descProgram
+
+/-- the type code reported for a column, by the statements the source has now; `none` when `description`
+raises or reports `None`. -/
+def typeCodeP (c : Desc) : Option Str := (codeState c).bind (·.code)
+
+/-- reference semantics of the type code (also used by the model of C16): the member's value, overridden by
+`DECIMAL(p,s)` for a DECIMAL and by `ARRAY<T>` for an ARRAY with an element type; `none` when `description`
+raises (the int `0` has no `.value`).  `typeCodeP_eq` (Lemmas): the statements read from the source compute
+exactly this. -/
 def typeCode (c : Desc) : Option Str :=
   match c.ty with
   | .zero => none
@@ -247,6 +505,60 @@ def typeCode (c : Desc) : Option Str :=
     match decide (v = descArrayKey), c.elem with
     | true, some e => some (descArrayPre ++ valueOf e ++ descArrayPost)
     | _, _ => some t
+
+/-! ## `DataFrame.description` over a whole schema (dataframe.py:342-397) -/
+
+/-- a column of a `RelationSchema`: name, aliases, the five attributes. -/
+structure Col where
+  name : Str
+  aliases : List Str := []
+  desc : Desc
+  deriving Repr, DecidableEq
+
+/-- `FlatColumn.all_names` (schema.py:283-288): the aliases, then the name. -/
+def allNames (c : Col) : List Str := c.aliases ++ [c.name]
+
+/-- `RelationSchema.find_column(name)` (schema.py:583-602, case-sensitive): the first column bearing the name. -/
+def findColumn (cols : List Col) (n : Str) : Option Col :=
+  cols.find? (fun c => (allNames c).contains n)
+
+/-- the column the `i`-th entry is built from (`Gen.TypeName.descLookup`). -/
+def entrySource (how : Lookup) (cols : List Col) (i : Nat) (c : Col) : Option Col :=
+  match how with
+  | .byPosition => cols[i]?
+  | .byName => findColumn cols c.name
+
+/-- `(name, type_code, …, precision, scale, …)` of one entry. -/
+structure Entry where
+  name : Str
+  code : Str
+  precision : Option Nat
+  scale : Option Nat
+  deriving Repr, DecidableEq
+
+/-- the entry reported under `name`, built from a column with attributes `d`; `none` when `description`
+raises or has no type code. -/
+def entryOf (name : Str) (d : Desc) : Option Entry :=
+  match codeState d with
+  | none => none
+  | some st =>
+    match st.code with
+    | none => none
+    | some code =>
+      some { name := name, code := code,
+             precision := if st.params then d.precision else none, scale := if st.params then d.scale else none }
+
+def describeFrom (how : Lookup) (all : List Col) : Nat → List Col → Option (List Entry)
+  | _, [] => some []
+  | i, c :: cs =>
+    match (entrySource how all i c).bind (fun cd => entryOf c.name cd.desc), describeFrom how all (i + 1) cs with
+    | some e, some es => some (e :: es)
+    | _, _ => none
+
+def describeWith (how : Lookup) (cols : List Col) : Option (List Entry) := describeFrom how cols 0 cols
+
+/-- `DataFrame(rows=[], schema=RelationSchema(columns=cols)).description`. -/
+def describe (cols : List Col) : Option (List Entry) := describeWith descLookup cols
 
 /-! ## the names the property calls well-formed, their rendering and what they denote -/
 
